@@ -92,6 +92,20 @@ func BuildTree(W string, nodes []TNode) error {
 				}
 				body = string(b)
 			}
+			if strings.HasPrefix(body, "<NOISEB:") {
+				// a second, different incompressible sequence
+				var k int
+				fmt.Sscanf(body, "<NOISEB:%d>", &k)
+				b := make([]byte, k)
+				x := uint32(88172645)
+				for i := range b {
+					x ^= x << 13
+					x ^= x >> 17
+					x ^= x << 5
+					b[i] = 33 + byte(x>>9)%94
+				}
+				body = string(b)
+			}
 			if err := os.WriteFile(p, []byte(body), 0644); err != nil {
 				return err
 			}
@@ -187,29 +201,30 @@ type PackArg struct {
 }
 
 type PackOut struct {
-	Touched      bool                `json:"touched,omitempty"`
-	WriteCalls   int                 `json:"write_calls,omitempty"`
-	SetupErr     string              `json:"setup_err,omitempty"`
-	Err          string              `json:"err,omitempty"`
-	Illegal      bool                `json:"illegal,omitempty"`
-	Panic        string              `json:"panic,omitempty"`
-	Files        []string            `json:"files,omitempty"`
-	Size         int64               `json:"size"`
-	Entries      []tarx.Decoded      `json:"entries,omitempty"`
-	DecodeErr    string              `json:"decode_err,omitempty"`
-	SrcTree      map[string]fsx.Node `json:"src_tree,omitempty"`
-	UnpackErr    string              `json:"unpack_err,omitempty"`
-	UnpackIll    bool                `json:"unpack_illegal,omitempty"`
-	DstTree      map[string]fsx.Node `json:"dst_tree,omitempty"`
-	SourceDiff   []string            `json:"source_diff,omitempty"`
-	Resolved     map[string]string   `json:"resolved,omitempty"`      // archive name -> W-relative physical path of src/<name>
-	ParentPhys   map[string]string   `json:"parent_phys,omitempty"`   // archive name -> W-relative physical path of the directory holding src/<name>
-	AbsRel       map[string]string   `json:"abs_rel,omitempty"`       // archive name -> W-relative form of an absolute link target
-	ResolvedPerm map[string]uint32   `json:"resolved_perm,omitempty"` // regular entry -> permission bits of the file src/<name> physically resolves to
-	HopPhys      map[string]string   `json:"hop_phys,omitempty"`      // link entry -> W-relative place its own target names when every component BEFORE the last is followed the way the kernel does
-	WriterErred  bool                `json:"writer_erred,omitempty"`
-	Written      int                 `json:"written"`
-	SlugLen      int                 `json:"slug_len"`
+	Touched            bool                `json:"touched,omitempty"`
+	EarlierMetaChanged string              `json:"earlier_meta_changed,omitempty"`
+	WriteCalls         int                 `json:"write_calls,omitempty"`
+	SetupErr           string              `json:"setup_err,omitempty"`
+	Err                string              `json:"err,omitempty"`
+	Illegal            bool                `json:"illegal,omitempty"`
+	Panic              string              `json:"panic,omitempty"`
+	Files              []string            `json:"files,omitempty"`
+	Size               int64               `json:"size"`
+	Entries            []tarx.Decoded      `json:"entries,omitempty"`
+	DecodeErr          string              `json:"decode_err,omitempty"`
+	SrcTree            map[string]fsx.Node `json:"src_tree,omitempty"`
+	UnpackErr          string              `json:"unpack_err,omitempty"`
+	UnpackIll          bool                `json:"unpack_illegal,omitempty"`
+	DstTree            map[string]fsx.Node `json:"dst_tree,omitempty"`
+	SourceDiff         []string            `json:"source_diff,omitempty"`
+	Resolved           map[string]string   `json:"resolved,omitempty"`      // archive name -> W-relative physical path of src/<name>
+	ParentPhys         map[string]string   `json:"parent_phys,omitempty"`   // archive name -> W-relative physical path of the directory holding src/<name>
+	AbsRel             map[string]string   `json:"abs_rel,omitempty"`       // archive name -> W-relative form of an absolute link target
+	ResolvedPerm       map[string]uint32   `json:"resolved_perm,omitempty"` // regular entry -> permission bits of the file src/<name> physically resolves to
+	HopPhys            map[string]string   `json:"hop_phys,omitempty"`      // link entry -> W-relative place its own target names when every component BEFORE the last is followed the way the kernel does
+	WriterErred        bool                `json:"writer_erred,omitempty"`
+	Written            int                 `json:"written"`
+	SlugLen            int                 `json:"slug_len"`
 }
 
 type faultWriter struct {
@@ -327,15 +342,29 @@ func runPack(arg PackArg) (out PackOut) {
 		} else {
 			var p *slug.Packer
 			p, err = slug.NewPacker(opts...)
+			var preBuf bytes.Buffer
+			var preMeta *slug.Meta
+			var preFiles []string
+			var preSize int64
 			if err == nil && arg.Reuse {
 				pre := filepath.Join(W, "pre")
 				if arg.PreSrc != "" {
 					pre = strings.ReplaceAll(arg.PreSrc, "<W>", W)
 				}
-				p.Pack(pre, io.Discard)
+				var perr error
+				preMeta, perr = p.Pack(pre, &preBuf)
+				if perr != nil {
+					preMeta = nil
+				} else {
+					preFiles, preSize = append([]string{}, preMeta.Files...), preMeta.Size
+				}
 			}
 			if err == nil {
 				meta, err = p.Pack(src, fw)
+			}
+			// what the earlier call returned is the caller's: a later call on the same Packer must not change it
+			if preMeta != nil && (strings.Join(preMeta.Files, "\x00") != strings.Join(preFiles, "\x00") || preMeta.Size != preSize) {
+				out.EarlierMetaChanged = fmt.Sprintf("the Meta returned by the earlier Pack on this Packer was %q/%d and reads %q/%d after the next Pack", preFiles, preSize, preMeta.Files, preMeta.Size)
 			}
 		}
 	}()
